@@ -387,7 +387,7 @@ class AbstractActorCriticOnPolicyAlgorithm[PolicyType: AbstractActorCriticPolicy
 
         # Bootstrap reward if truncated
         bootstrapped_reward = lax.cond(
-            truncation,
+            truncation & ~termination,
             lambda: (
                 reward
                 + self.gamma
